@@ -34,6 +34,7 @@ when the event it just forwarded is Scenario::Finished; (R7) routing: a scenario
 by its own (feature, rule?, scenario, retries): the run-level insert looks the feature up by the event's feature and
 passes rule / scenario / event down unchanged, the feature-level insert pushes the given event in both branches, the
 branch being selected by `rule` and the buffer key containing scenario and retries (and the rule in the rule branch).
+Added after the second seeded round: (R8) Clone of Normalize and of its queue types is field for field (path tables).
 """
 DECLINED = ["the permutation/contiguity/order statement over arbitrary contract-abiding interleavings (runtime histories)",
             "behaviour of linked_hash_map / Vec themselves"]
